@@ -136,22 +136,22 @@ def core_models(tier, d):
         # (1) N2 complete, all invariants, witness behaviours per transition class
         ("n2_classes", "MC_GcHeap", hc("classes", n_obj=2, many=True), 3, None, 1500),
         # (2) every object kind / storage path of C06, behaviours of bounded length
-        ("n2_kinds", "MC_GcHeap", hc("classes", n_obj=2, kinds=ALLK, max_ops=5 if quick else 7, barrier_only=True, vias=VIAS),
-         2, None, 3000),
+        ("n2_kinds", "MC_GcHeap", hc("classes", n_obj=2, kinds=ALLK, max_ops=5 if quick else 6, barrier_only=True, vias=VIAS),
+         2, None, 12000),
         # (3) fault injection (C11): trace panics at the k-th trace call after j children, panicking
         #     callbacks, failing constructors and root maps
-        ("n2_faults", "MC_GcHeap", hc("classes", n_obj=2, fault_ats=(0, 1), vias=VIAS, max_ops=6 if quick else 8), 2, None, 3000),
+        ("n2_faults", "MC_GcHeap", hc("classes", n_obj=2, fault_ats=(0, 1), vias=VIAS, max_ops=6 if quick else 7), 2, None, 12000),
         # (4) dynamic root sets (C14): a set, two nodes, two handles; stash / clone / drop / slot reuse.
         #     Witnesses per PAIR of transition classes, so that what follows a stash is replayed too.
         ("n3_dyn", "MC_GcHeap", hc("pairs", n_obj=3, max_handles=2, finalize=False, budgets=(1,), grans=("P1",),
-                                   weak=False, unlink=False, max_ops=6 if quick else 8), 1, None, 3000),
+                                   weak=False, unlink=False, max_ops=6 if quick else 7), 1, None, 14000),
         # (4a) dynamic roots, PATH diversity: the implementation's slot table has history the model's state does not
         #      (a recycled slot), so covering states or classes is not enough; seeded random walks (tlc -simulate)
         ("n2_dynwalk", "MC_GcHeap", hc("walks", n_obj=2, max_handles=2, finalize=False, budgets=(1,), grans=("P1",), weak=False,
                                        unlink=False, debt_calls=False, drop=False, max_ops=12), None, 12000 if quick else 120000, 3000,
          ("num=600" if quick else "num=6000", 13)),
         # (4b) consequences: one witness per (class of transition, operation that follows it)
-        ("n2_pairs", "MC_GcHeap", hc("pairs", n_obj=2, many=True, max_ops=5 if quick else 6), 1, None, 6000),
+        ("n2_pairs", "MC_GcHeap", hc("pairs", n_obj=2, many=True, max_ops=5 if quick else 6), 1, None, 12000),
         # (4c) a RefLock frozen by a leaked RefMut (safe code): tracing it must panic, never skip it
         ("n2_leak", "MC_GcHeap", hc("pairs", n_obj=2, leak=True, finalize=False, drop=False, debt_calls=False, budgets=(1,),
                                     grans=("P1",), max_ops=5 if quick else 7), 1, None, 3000),
@@ -165,13 +165,13 @@ def core_models(tier, d):
         ("n3_shell", "MC_GcHeap", hc("pairs", n_obj=3, finalize=False, drop=False, budgets=(1,), grans=("P1",),
                                      prelude="shell", max_ops=6 + (3 if quick else 4)), 1, None, 3000),
         ("n3_weakgarbage", "MC_GcHeap", hc("pairs", n_obj=3, finalize=False, drop=False, budgets=(1,), grans=("P1",),
-                                           prelude="weakgarbage", max_ops=6 + (3 if quick else 4)), 1, None, 3000),
+                                           prelude="weakgarbage", max_ops=6 + 3), 1, None, 6000),
         ("n3_weakchain", "MC_GcHeap", hc("pairs", n_obj=3, finalize=True, drop=False, budgets=(1,), grans=("P1",), debt_calls=False,
                                          prelude="weakchain", max_ops=5 + (2 if quick else 3)), 1, None, 3000),
         ("n3_mixed", "MC_GcHeap", hc("pairs", n_obj=3, finalize=False, drop=True, budgets=(1, 2), grans=("P1",),
                                      prelude="mixed", max_ops=5 + (2 if quick else 3)), 1, None, 3000),
         ("n3_chain", "MC_GcHeap", hc("pairs", n_obj=3, finalize=False, drop=False, budgets=(1,), grans=("P1",),
-                                     prelude="chain", max_ops=4 + (2 if quick else 4)), 1, None, 3000),
+                                     prelude="chain", max_ops=4 + (2 if quick else 3)), 1, None, 6000),
         # (5) two arenas on one thread (C20): interleavings of a reduced menu
         ("two_arenas", "TwoArenas", two_arenas_cfg(4 if quick else 5), None, 12000 if quick else 200000, 3000),
         # (5a) one arena after the other on the same thread, dynamic-root handles of the first surviving it: with the
